@@ -116,7 +116,9 @@ def gen_enum(en):
         if v["skip"]:
             vo.append("skip")
         if v["word"]:
-            vo.append("word")
+            vo.append(v.get("word_spelled") or "word")
+        if v["explicit_not_word"]:
+            vo.append("word = false")
         if vo:
             out.append("    #[darling(%s)]" % ", ".join(vo))
         if v["kind"] == "unit":
